@@ -92,6 +92,16 @@ let () = run_lines (fun toks ->
           ^ " | " ^ string_of_int (List.length pacc) ^ " " ^ grp pacc ^ "| " ^ grp pacc ^ "| " ^ grp ck2 ^ "| " ^ string_of_z v3
           ^ " | " ^ grp mixe ^ "| " ^ grp mixo ^ "| " ^ grp rr0 ^ "| " ^ grp first)
   | _ -> "BAD-LINE")
+  | "ringrns" :: cp :: asg :: prog :: h :: rest ->
+    (* RNSsystem<RING != Integer, Domain>: the same model; digits | V | residues of a | back *)
+    let (p, r, rest) = parse_sys rest in
+    let a = zs (List.hd rest) in
+    let ks = List.hd (List.tl rest) and os = List.tl (List.tl rest) in
+    let o = List.map zs (take (int_of_string ks) os) in
+    (match Model.dom_run (dsrc_of cp asg prog) Model.Fmix (hist_of h) p o r [a] with
+     | None -> "UNDEFINED"
+     | Some ((((((((((mix, v), rrs), _), _), _), _), _), _), _), _) ->
+       grp mix ^ "| " ^ string_of_z v ^ " | " ^ grp (List.concat (List.map fst rrs)) ^ "| " ^ grp (List.map snd rrs))
   | "rnsexc" :: cp :: asg :: prog :: rest ->
     (* RNSsystem::MixedRadixToRing on a system with the primes p (possibly none) and a digit array of any size *)
     (match rest with
